@@ -31,7 +31,10 @@ theorem cbcEncBlocks_flat_len (B : BlockCipher) (hB : EncLen B) (k : B.K) (prev 
 
 theorem adapter_macLen (B : BlockCipher) (hB : EncLen B) : MacLen (Adapter.crypto B) := by
   intro k iv d m h
-  simp only [Adapter.crypto, Adapter.mac, Adapter.encrypt, Except.bind_eq_ok] at h
+  simp only [Adapter.crypto, Adapter.mac, Adapter.encrypt] at h
+  split at h
+  · simp [bind, Except.bind] at h
+  simp only [Except.bind_eq_ok] at h
   obtain ⟨c, ⟨⟨ks, ivb⟩, hmode, blocks, hfeed, hc⟩, hm⟩ := h
   simp only [pure, Except.pure, Except.ok.injEq] at hc hm
   subst hc; subst hm
